@@ -127,10 +127,14 @@ func genDet(rr *hxlib.Rand, cap, length int, wrap bool, tmo time.Duration) *detR
 				d.step(fmt.Sprintf("sweep now=%d", farFuture))
 			default:
 				o := out[rr.Intn(len(out))]
-				d.step(fmt.Sprintf("sweep now=%d", o.dl+int64(rr.Pick(0, 1))))
+				d.step(fmt.Sprintf("sweep now=0 ref=%d:%d", o.id, rr.Pick(0, 1))) // resolved to the call's deadline (+1)
 			}
 		case x < 19:
-			d.step("reap")
+			if nAsync := s.dueAsync(); nAsync > 0 && rr.Chance(1, 2) {
+				d.runBlock(randomBlock(rr, s, nAsync))
+			} else {
+				d.step("reap")
+			}
 		default:
 			d.step("state")
 		}
@@ -149,20 +153,135 @@ func genDet(rr *hxlib.Rand, cap, length int, wrap bool, tmo time.Duration) *detR
 	return d
 }
 
+// dueAsync: asynchronous calls a ReapTimeout begun now would complete
+func (s *sim) dueAsync() int {
+	n := 0
+	for _, c := range s.calls {
+		if c.expect != nil && c.timingOut() && !c.batch && !c.block && len(s.eventsOf(c.id)) == 0 {
+			n++
+		}
+	}
+	return n
+}
+
+func scriptOp(rr *hxlib.Rand, s *sim) string {
+	out := s.outstanding()
+	switch x := rr.Intn(10); {
+	case x < 4:
+		return fmt.Sprintf("sweep now=%d", farFuture)
+	case x < 5 && len(out) > 0:
+		return fmt.Sprintf("sweep now=0 ref=%d:%d", out[rr.Intn(len(out))].id, rr.Pick(0, 1))
+	case x < 7:
+		if len(s.fifo) < s.cap-2 {
+			return "call mode=" + []string{"async", "async", "block"}[rr.Intn(3)]
+		}
+		return "pop"
+	case x < 8 && len(out) > 0:
+		return fmt.Sprintf("dispatch seq=%d err=1 code=%d cmd=%d dec=fail", out[rr.Intn(len(out))].seq, rr.Range(1, 23), cmdMsg)
+	case x < 9:
+		return "reap"
+	}
+	return "state"
+}
+
+// randomBlock: a ReapTimeout with random scripts in some of its callbacks
+func randomBlock(rr *hxlib.Rand, s *sim, nAsync int) []string {
+	tpl := []string{"strip"}
+	if rr.Chance(1, 3) {
+		tpl[0] = "strip other=1"
+	}
+	for j := 0; j < nAsync; j++ {
+		tpl = append(tpl, "complete")
+		if rr.Chance(1, 2) {
+			for k := rr.Range(1, 3); k > 0; k-- {
+				tpl = append(tpl, scriptOp(rr, s))
+			}
+		}
+	}
+	return append(tpl, "reap-end")
+}
+
+// genMidReap: a batch of nA expired calls is being reaped; inside the callback of one of them a sweep expires
+// nB >= 2 further calls (and, sometimes, more happens: calls, responses, a nested ReapTimeout). Every call of
+// both groups must be completed exactly once, with the timeout code.
+func genMidReap(rr *hxlib.Rand, nA, nB int, tmo time.Duration) *detRun {
+	d := &detRun{s: newSim(128, tmo)}
+	s := d.s
+	d.step("new cap=128")
+	if rr.Chance(1, 3) {
+		d.step(fmt.Sprintf("setcounter v=%d", rr.Range(65500, 65535)))
+	}
+	nAsync := 0
+	for i := 0; i < nA; i++ {
+		if i >= 2 && rr.Chance(1, 4) {
+			d.step("call mode=block")
+		} else {
+			d.step("call mode=async")
+			nAsync++
+		}
+	}
+	lastA := len(s.calls) - 1
+	for i := 0; i < nB; i++ {
+		d.step("call mode=" + []string{"async", "async", "async", "block"}[rr.Intn(4)])
+	}
+	for k := rr.Intn(3); k > 0; k-- {
+		d.step("pop")
+	}
+	d.step(fmt.Sprintf("sweep now=0 ref=%d:1", lastA))
+	tpl := []string{"strip"}
+	if rr.Chance(1, 3) {
+		tpl[0] = "strip other=1"
+	}
+	at := 0
+	if rr.Chance(1, 3) {
+		at = rr.Intn(nAsync)
+	}
+	for j := 0; j < nAsync; j++ {
+		tpl = append(tpl, "complete")
+		if j == at {
+			tpl = append(tpl, fmt.Sprintf("sweep now=%d", farFuture))
+			for k := rr.Intn(3); k > 0; k-- {
+				tpl = append(tpl, scriptOp(rr, s))
+			}
+		} else if rr.Chance(1, 6) {
+			tpl = append(tpl, scriptOp(rr, s))
+		}
+	}
+	d.runBlock(append(tpl, "reap-end"))
+	d.step("state")
+	d.step("reap")
+	d.finish()
+	return d
+}
+
 func replayDet(c Case, tmo time.Duration) *detRun {
 	d := &detRun{s: newSim(c.Cap, tmo)}
-	for _, op := range c.Ops {
+	clean := func(op string) string {
 		ws := strings.Fields(op)
 		if len(ws) > 0 && ws[0] == "call" {
-			op = "call mode=" + kvStr(ws, "mode") // the deadline is read back again
+			return "call mode=" + kvStr(ws, "mode") // the deadline is read back again
 		}
-		if op == fmt.Sprintf("sweep now=%d", farFuture) && len(d.ops) > 0 && false {
+		return op
+	}
+	for i := 0; i < len(c.Ops) && !d.s.hung; i++ {
+		op := clean(c.Ops[i])
+		if strings.HasPrefix(op, "strip") {
+			j := i
+			var tpl []string
+			for ; j < len(c.Ops); j++ {
+				tpl = append(tpl, clean(c.Ops[j]))
+				if c.Ops[j] == "reap-end" {
+					break
+				}
+			}
+			if j == len(c.Ops) {
+				tpl = append(tpl, "reap-end")
+			}
+			d.runBlock(tpl)
+			i = j
 			continue
 		}
 		d.step(op)
-		if d.s.hung {
-			break
-		}
 	}
 	// the recorded list already ends with the final sweep/reap/state; run the final check only
 	for _, cc := range d.s.calls {
@@ -195,9 +314,21 @@ func report(r *hxlib.Run, d *detRun, c Case, emit bool) bool {
 	r.Case()
 	nt := false
 	seen := map[string]bool{}
+	inBlock := false
 	for _, l := range d.lines {
 		w := strings.Fields(l[0])[0]
 		r.Count("op:" + w)
+		switch {
+		case w == "strip":
+			inBlock = true
+		case w == "reap-end":
+			inBlock = false
+		case inBlock && w == "sweep":
+			r.Count("mid-reap:sweep-inside-reap")
+			nt = true
+		case inBlock && w == "reap":
+			r.Count("mid-reap:nested-reap")
+		}
 		switch {
 		case w == "dispatch" && l[1] == "unmatched":
 			r.Count("dispatch:unmatched")
@@ -256,6 +387,23 @@ func main() {
 			bad++
 		}
 		if i < 3 {
+			r.Sample(c)
+		}
+	}
+	// a sweep (and more) inside a ReapTimeout that is still completing its batch: batches of 2..8 and of more
+	// than 8 expired calls (the expired list starts with capacity 8), 2..10 further calls expiring meanwhile
+	for i := 0; i < r.Scale(150, 3000) && bad < 4; i++ {
+		nA := r.R.Range(2, 8)
+		if i%3 == 2 {
+			nA = r.R.Range(9, 24)
+		}
+		d := genMidReap(r.R.Fork(), nA, r.R.Range(2, 10), tmo)
+		c := Case{Kind: "det", Cap: 128, Ops: d.ops}
+		r.Count("mid-reap:scenarios")
+		if report(r, d, c, true) {
+			bad++
+		}
+		if i == 0 {
 			r.Sample(c)
 		}
 	}
